@@ -9,6 +9,7 @@ from __future__ import annotations
 
 import json
 import random
+import re
 
 from .. import common as C
 from .. import gen
@@ -39,11 +40,26 @@ def build_jobs(tier, rep):
     three = [d for d in l1 if d.count("\n") == 3]
     rnd = random.Random(C.SEED)
     jobs = []
-    n = 45000 if q else 600000
+    n = 30000 if q else 400000
     for k in range(n):
         a = rnd.choice(short if k % 3 else three)
         b = rnd.choice(short)
         jobs.append((a, b, CFGS[k % len(CFGS)]))
+    # stratum 2: A rich in containers (state that could leak: list / quote context, indentation bookkeeping)
+    cont = re.compile(r"(^|\n)[ \t]*([-*+>]|\d+[.)])")
+    nested = [d for d in short if len(cont.findall(d)) >= 2 or re.search(r"(^|\n)\s*([-*+>]|\d+[.)])\s*([-*+>]|\d+[.)])", d)]
+    for k in range(12000 if q else 150000):
+        jobs.append((rnd.choice(nested), rnd.choice(short), CFGS[k % len(CFGS)]))
+    # stratum 3: every two-line A over the container shapes x a fixed set of column-0 documents B
+    alpha = gen.alphabet("L1")
+    cshapes = [x for x in alpha if re.match(r"\s*([-*+>]|\d+[.)])", x)]
+    bs = ["c\n\nd\n", "- x\n", "> y\n", "# h\n", "```\nf\n```\n", "1. o\n", "c\n", "***\n", "<div>\nz\n</div>\n", "[r]: /u\n", "a|b\n-|-\n", "2. p\n-\n"]
+    k = 0
+    for x in cshapes:
+        for y in cshapes:
+            for b in (bs if not q else bs[(k % 4)::4]):
+                jobs.append((x + "\n" + y + "\n", b, CFGS[k % len(CFGS)]))
+                k += 1
     rep.cov["bounds"] = {"A_B_pool": len(short), "A_three_line_pool": len(three), "pairs_executed": len(jobs),
                          "pairs_possible": len(short) ** 2}
     rep.cov["exhaustive"] = False
